@@ -1000,6 +1000,34 @@ def check_callback_wrappers(F, R, b):
             continue
         cctx = _Ctx(cb)
         params = {("place", cb.key, ("arg", i), ()) for i in range(2, cb.nargs + 1)}
+        calls_cb = any(callee_tag(t.get("callee"))[1] in ("call_mut", "call_once", "call") and t["args"] and
+                       ("arg", 1) in {r for (r, p) in cctx.org.operand(t["args"][0])} for (xb, t) in cb.calls())
+        if not calls_cb:
+            # a summarising closure (`|size, cap| total = (total.0 + size, total.1 + cap)`): every
+            # captured accumulator it writes must add the reported value to its own old value
+            from expr import trees as _trees, nobb as _nobb, show
+            for xb in sorted(cb.live_blocks()):
+                for si, st in enumerate(cb.blocks[xb]["stmts"]):
+                    if st["k"] != "assign" or not any(e["k"] == "deref" for e in st["place"]["p"]):
+                        continue
+                    tg = [(r, p) for (r, p) in cctx.org.place(st["place"]) if r == ("arg", 1)]
+                    if not tg:
+                        continue
+                    (r, p) = tg[0]
+                    tgt = ("place", cb.key, r, tuple(p))
+                    val = _nobb(_trees(cctx, cctx.org.rvalue(st["rv"], xb, si)))
+                    comps = list(enumerate(val[2])) if val[0] == "agg" and val[1] == "tuple" else [(None, val)]
+                    for (i, v) in comps:
+                        own = tgt if i is None else ("place", cb.key, r, tuple(p) + ("f:%d" % i,))
+                        from_param = any(nd in params for nd in walk(v))
+                        keeps = any(nd == own for nd in walk(v))
+                        if from_param:
+                            R.check("R-COVER(heap_size)", b.label(), keeps,
+                                    construct="a summarising callback adds every report to its total",
+                                    where="%s:%s" % (cb.file, st["line"]),
+                                    detail="component %s := %s" % ("" if i is None else i, show(v)[:60]) +
+                                    ("" if keeps else ": the reported value overwrites what earlier reports contributed "
+                                                      "(a child that reports several pairs is under-counted)"))
         for (xb, t) in cb.calls():
             tag = callee_tag(t.get("callee"))
             if tag[1] not in ("call_mut", "call_once", "call") or not t["args"]:
@@ -1167,3 +1195,39 @@ def r_retain_noshrink(F, R, cat=None):
                 where=bad[0].where() if bad else b.where(),
                 detail="%s on self in clear(): reported capacity can shrink" % ["%s::%s" % e.tag for e in bad] if bad else "")
     R.floor("R-RETAIN", "clear bodies scanned for shrinking", n, 10)
+
+
+def r_storage_clear(F, R, cat=None):
+    """`Storage::clear` implemented for a std container (the plain-vector index / byte storage
+    behind most regions and behind FlatStack) empties the container on every path: the accepted
+    emptying calls are `clear()`, `truncate(0)` and `drain(..)` on the whole receiver.  A branch
+    that only truncates to some other length, or shrinks, leaves elements behind."""
+    from expr import operand_tree, nobb
+    n = 0
+    for b in F.methods_of_trait("Storage", "clear"):
+        if b.in_tests() or (b.self_adt and b.self_adt in F.adts):
+            continue  # local types: R-RESET proper
+        n += 1
+        R.saw(b)
+        ctx = Ctx(b)
+        me = ("place", b.key, ("arg", 1), ())
+        sites = set()
+        why = []
+        for (bi, t) in b.calls():
+            tag = callee_tag(t.get("callee"))
+            if not t["args"] or nobb(operand_tree(ctx, t["args"][0])) != me:
+                continue
+            if tag[1] == "clear":
+                sites.add(bi)
+                why.append("clear()")
+            elif tag[1] == "truncate" and len(t["args"]) == 2 and nobb(operand_tree(ctx, t["args"][1])) == ("const", "0"):
+                sites.add(bi)
+                why.append("truncate(0)")
+            elif tag[1] == "drain" and len(t["args"]) == 2 and str(nobb(operand_tree(ctx, t["args"][1]))[1]).startswith("RangeFull"):
+                sites.add(bi)
+                why.append("drain(..)")
+        ok = bool(sites) and not b.can_return_avoiding(sites)
+        R.check("R-RESET", b.label(), ok, construct="Storage::clear empties the container on every path",
+                where=b.where(), detail="emptying calls: %s" % (why or "none") +
+                ("" if ok else "; some path returns without one of them: elements survive the clear"))
+    R.floor("R-RESET", "Storage::clear impls for std containers", n, 1)
